@@ -369,12 +369,10 @@ func normalizeHeaderValue(ov, ob []byte, headerLength int) (nv, nb []byte, nhl i
 		return
 	}
 	write := 0
-	shrunk := 0
 	lineStart := false
 	for read := 0; read < length; read++ {
 		c := ov[read]
 		if c == '\r' || c == '\n' {
-			shrunk++
 			if c == '\n' {
 				lineStart = true
 			}
@@ -389,22 +387,24 @@ func normalizeHeaderValue(ov, ob []byte, headerLength int) (nv, nb []byte, nhl i
 	}
 
 	nv = nv[:write]
-	copy(ob[write:], ob[write+shrunk:])
 
-	// Check if we need to skip \r\n or just \n
-	skip := 0
-	if ob[write] == '\r' {
-		if ob[write+1] == '\n' {
-			skip += 2
-		} else {
-			skip++
-		}
-	} else if ob[write] == '\n' {
+	// Only the value itself is compacted. The bytes that follow it in the connection
+	// buffer (further header lines, the body, pipelined messages) must stay where they
+	// are: moving them would leave stale bytes at the end of the buffered data, and the
+	// header length must keep counting bytes as they were received.
+	skip := length
+	for skip < len(ob) && ob[skip] == ' ' {
+		skip++
+	}
+	if skip < len(ob) && ob[skip] == '\r' {
+		skip++
+	}
+	if skip < len(ob) && ob[skip] == '\n' {
 		skip++
 	}
 
-	nb = ob[write+skip : len(ob)-shrunk]
-	nhl = headerLength - shrunk
+	nb = ob[skip:]
+	nhl = headerLength
 	return
 }
 
